@@ -161,18 +161,14 @@ impl CompioLeg {
                 (true, true, false) => OFlags::CREATE | OFlags::TRUNC,
                 (_, _, true) => OFlags::CREATE | OFlags::EXCL,
             };
-            if o.app {
-                fl |= OFlags::APPEND;
-            }
-            let dop = ForceBlocking(OpenFile::new(CurrentDir, cstr(&p), fl, Mode::from_bits_retain(0o666)));
+            fl |= OFlags::from_bits_retain(o.custom_flags() as _);
+            let dop = ForceBlocking(OpenFile::new(CurrentDir, cstr(&p), fl, Mode::from_bits_retain(o.mode as _)));
             let BufResult(r, dop) = compio_runtime::submit(dop).await;
             r.map(|_| unsafe { File::from_raw_fd(dop.into_inner().into_raw_fd()) })
         } else {
             let mut oo = OpenOptions::new();
             oo.read(o.r).write(o.w).truncate(o.t).create(o.c).create_new(o.cn);
-            if o.app {
-                oo.custom_flags(libc::O_APPEND);
-            }
+            oo.mode(o.mode).custom_flags(o.custom_flags());
             oo.open(&p).await
         };
         match res {
@@ -182,7 +178,14 @@ impl CompioLeg {
                 let fd = f.as_raw_fd();
                 let mut st: libc::stat = unsafe { std::mem::zeroed() };
                 let ok = unsafe { libc::fstat(fd, &mut st) } == 0
-                    && std::fs::metadata(&p).map(|m| m.ino() == st.st_ino as u64 && m.dev() == st.st_dev as u64).unwrap_or(false);
+                    && if o.tmp {
+                        // an anonymous regular file on the directory's file system
+                        (st.st_mode & libc::S_IFMT) == libc::S_IFREG
+                            && st.st_nlink == 0
+                            && std::fs::metadata(&p).map(|m| m.dev() == st.st_dev as u64).unwrap_or(false)
+                    } else {
+                        std::fs::metadata(&p).map(|m| m.ino() == st.st_ino as u64 && m.dev() == st.st_dev as u64).unwrap_or(false)
+                    };
                 if !ok {
                     if fd <= 2 {
                         std::mem::forget(f); // never close the harness' own stdio
@@ -191,8 +194,9 @@ impl CompioLeg {
                 }
                 self.cursor = Some(Cursor::new(f.clone()));
                 self.file = Some(f);
-                self.fpath = Some(p);
-                Obs::ok(0)
+                self.fpath = Some(if o.tmp { format!("/proc/self/fd/{fd}").into() } else { p });
+                // the permission bits of the inode behind the descriptor are part of the result
+                Obs::ok(fd_perm(fd))
             }
             Err(e) => Obs::err(&e),
         }
@@ -504,6 +508,7 @@ fn main() {
     if std::env::var("VERIF_SHOW_PANICS").is_err() {
         silence_panics();
     }
+    unsafe { libc::umask(UMASK) };
     let scratch = PathBuf::from(std::env::args().nth(2).expect("usage: replay_file <cases.jsonl> <scratch dir>"));
     std::fs::create_dir_all(&scratch).unwrap();
     let rep = Arc::new(Mutex::new(Report::new()));
